@@ -467,7 +467,9 @@ class Machine:
         tgt_lvl = lvl + depth
         v = o["val"]
         if tgt_lvl == self.d - 1:
-            func = (lambda i, c, p: p + v) if o["mode"] % 2 else (lambda i, c, p: p * v)
+            # (the function may hand back a box or a plain value: "-> payload", as append / __setitem__ take either)
+            func = [(lambda i, c, p: p + v), (lambda i, c, p: p * v), (lambda i, c, p: Payload.get(p) + v),
+                    (lambda i, c, p: Payload.get(p) * v)][o["mode"] % 4]
         else:
             func = lambda i, c, p: p      # fiber -> same fiber (structure-preserving; C09 covers real transforms)
         f.updatePayloads(func, depth=depth)
